@@ -9,6 +9,7 @@ CONSTANTS
   BatchSizes = {1, 2, 3}
   PerIns = 1
   PerFl = 1
+  LateTables = {}
   LockScope = "fix"
   SigMode = "label"
 VIEW View
